@@ -732,9 +732,20 @@ def explain_forces(m, d, qpos, qvel, ctrl, act, got, bad, tol):
   alt = mjw_order_forces(m, qpos, qvel, ctrl, act)
   dc_tendons = {int(m.actuator_trnid[j, 0]) for j in range(m.nu)
                 if m.actuator_trntype[j] == TEN and int(m.actuator_biastype[j]) == 3 and (m.actuator_biasprm[j, 0] != 0 or m.actuator_dynprm[j, 5] > 0)}  # fmt: skip
+
+  def user_out(j):  # user activation outside actrange used early: MuJoCo clamps it, next_act's USER branch does not
+    if int(m.actuator_dyntype[j]) != 7 or not (m.actuator_actlimited[j] and m.actuator_actearly[j]) or m.actuator_actadr[j] < 0:
+      return False
+    a_last = float(d.act[m.actuator_actadr[j] + m.actuator_actnum[j] - 1])
+    return not (m.actuator_actrange[j, 0] <= a_last <= m.actuator_actrange[j, 1])
+
+  user_tendons = {int(m.actuator_trnid[j, 0]) for j in range(m.nu) if m.actuator_trntype[j] == TEN and user_out(j)}
   out = {}
   for i in bad:
     on_lim = m.actuator_trntype[i] == TEN and bool(m.tendon_actfrclimited[m.actuator_trnid[i, 0]])
+    if user_out(i) or (on_lim and int(m.actuator_trnid[i, 0]) in user_tendons):  # (the tendon total contains such a force)
+      out.setdefault("user-actlimit", i)
+      continue
     if on_lim and int(m.actuator_trnid[i, 0]) in dc_tendons:  # the tendon total (hence every scale factor on it) contains the mechanical force
       out.setdefault("dc-mech", i)
       continue
@@ -818,6 +829,7 @@ KEY_OF = {
   "clamp-order": "C03:fwd_actuation:forcerange-clamp-before-tendon-clamp",
   "dc-mech": "C03:fwd_actuation:dcmotor-mechanical-force-before-tendon-clamp",
   "servo-wrap": "C03:_actuator_force:ball-joint-position-servo-not-wrapped",
+  "user-actlimit": "C03:next_act:dyntype-user-skips-actlimited-clamp",
 }
 
 
@@ -836,6 +848,8 @@ def classify(m, f):
   if name in ("act_dot", "act_next") and "index" in f:
     j = f["index"][0]
     own = [i for i in range(m.nu) if m.actuator_actadr[i] >= 0 and m.actuator_actadr[i] <= j < m.actuator_actadr[i] + m.actuator_actnum[i]]
+    if name == "act_next" and own and int(m.actuator_dyntype[own[0]]) == 7 and m.actuator_actlimited[own[0]]:
+      return KEY_OF["user-actlimit"]
     return f"C03:oracle:{name}:dyn{int(m.actuator_dyntype[own[0]]) if own else -1}"
   _ = mujoco
   return f"C03:oracle:{name}"
@@ -921,10 +935,14 @@ KEY_USER = "C03:_actuator_force:dyntype-user-actearly-unassigned-act"
 KEY_GROUP = "C03:fwd_actuation:actuatorgroupdisable-ignored"
 
 
+USER_LIMIT_XML = """<mujoco><worldbody><body><joint name="j" type="hinge"/><geom size="0.1"/></body></worldbody>
+<actuator><general name="u" joint="j" dyntype="user" actdim="1" actlimited="true" actrange="0 1" gainprm="1"/></actuator></mujoco>"""
+
+
 def probes(res):
   """Minimal witnesses of the named differences.  The three open ones must still disagree as described (they are
-  listed in known_findings.json); the two repaired ones (/repo 9478e66, 5a274fa) are regression cases under their
-  old keys: user+actearly must now agree with MuJoCo, and put_model must refuse a model that disables an actuator group."""
+  listed in known_findings.json); the repaired ones (/repo 9478e66, 5a274fa, 0fa25c6) are regression cases under their
+  old keys: user+actearly and user+actlimited must now agree with MuJoCo, and put_model must refuse a model that disables an actuator group."""
   import mujoco
 
   import mujoco_warp as mjw
@@ -935,6 +953,7 @@ def probes(res):
     (KEY_OF["servo-wrap"], WRAP_XML, [5.0], []),
     (KEY_OF["clamp-order"], ORDER_XML, [3.0], []),
     (KEY_USER, USER_EARLY_XML, [0.0], [0.5]),
+    (KEY_OF["user-actlimit"], USER_LIMIT_XML, [0.0], [2.0]),
   ):
     mp = mujoco.MjModel.from_xml_string(xml)
     q0 = np.array(mp.qpos0)
@@ -965,11 +984,13 @@ def probes(res):
     out[KEY_GROUP] = {"xml": GROUP_XML, "qpos": [0.0], "qvel": [0.0], "ctrl": [[1.0, 3.0]] * 2, "act": [[], []],
                       "first": fails[0] if fails else {"field": "put_model", "note": "accepted a model with a disabled actuator group"}, "all": fails[:8]}  # fmt: skip
   res.obligation("regression: dyntype=user with actearly agrees with MuJoCo (fixed 9478e66)", KEY_USER not in out, "")
+  res.obligation("regression: user activations are clamped to actrange like mj_nextActivation (fixed 0fa25c6)", KEY_OF["user-actlimit"] not in out, "")
   res.obligation("regression: put_model raises NotImplementedError for actuatorgroupdisable (fixed 5a274fa)", raised, "")
   return out
 
 
 WHAT = {
+  KEY_OF["user-actlimit"]: "REGRESSION of fix 0fa25c6 - support.next_act returns act_in for DynType.USER BEFORE the actlimited clamp; MuJoCo's mj_nextActivation clamps user activations to actrange as well, so the stored activation (and with actearly the force) differs whenever a user activation is outside actrange (theorem C03_next_act_user states what the code does)",
   KEY_OF["dc-mech"]: "DC-motor cogging / LuGre forces are added inside _actuator_force and then scaled by the tendon force limit; MuJoCo adds them after the tendon and forcerange clamps (same stage-order root cause as forcerange-clamp-before-tendon-clamp)",
   KEY_OF["servo-wrap"]: "ball-joint position servo (fixed gain = -biasprm[1], dyntype none/integrator): the installed MuJoCo 3.13 wraps (target - length) into one turn before applying kp, /repo evaluates the plain affine law, so forces differ once |target - length| > pi*|gear| (probably a MuJoCo feature newer than /repo's baseline)",
   "C03:fwd_actuation:forcerange-clamp-before-tendon-clamp": "actuator forcerange is clamped inside _actuator_force, BEFORE the tendon total is formed and scaled; MuJoCo scales by the tendon limit first and clamps to forcerange last, so forces differ (and leave forcerange) whenever a force-limited actuator acts on a force-limited tendon whose limit is active",
